@@ -3,6 +3,7 @@
 package main
 
 import (
+	"bytes"
 	"encoding/json"
 	"fmt"
 	"os"
@@ -93,6 +94,11 @@ func buildScenarios(w *apiWorld, tier string) []scenario {
 		out = append(out, scenario{"ProotS.ApplyWithOptions(noescape) | ProotS.Apply(default) [" + tag + "]",
 			[]int{callIndex(w, "ProotS.ApplyWithOptions(docS, noescape) [root replaced]"), callIndex(w, "ProotS.Apply(docS) [root replaced]")}, warm})
 	}
+	// overlapping calls on ONE patch, ONE document of 78 KB and ONE options value that differ only in the indent
+	p64 := []string{"P64.ApplyIndentWithOptions(doc64K, compact, SHARED opts)", "P64.ApplyIndentWithOptions(doc64K, two blanks, SHARED opts)", "P64.ApplyIndentWithOptions(doc64K, tab, SHARED opts)"}
+	out = append(out, scenario{p64[0] + " | " + p64[2] + " [cold]", []int{callIndex(w, p64[0]), callIndex(w, p64[2])}, false},
+		scenario{p64[1] + " | " + p64[2] + " [warm]", []int{callIndex(w, p64[1]), callIndex(w, p64[2])}, true},
+		scenario{"Pesc.Apply(docEsc) | Pesc.Apply(docEsc) [cold]", []int{callIndex(w, "Pesc.Apply(docEsc) [\\u escapes in names, values and pointers]"), callIndex(w, "Pesc.Apply(docEsc) [\\u escapes in names, values and pointers]")}, false})
 	three := [][]int{{0, 0, 0}, {0, 3, 4}, {2, 5, 6}}
 	for _, t := range three {
 		for _, warm := range []bool{false, true} {
@@ -115,7 +121,7 @@ func init() {
 
 // schedExec runs one execution of sc with the given choice prefix.
 func schedExec(w *apiWorld, s *sched, sc scenario, prefix []int) (*chooser, []string) {
-	zs.Reset()
+	coldReset()
 	if sc.warm {
 		for _, ci := range sc.calls {
 			w.outcome(ci)
@@ -159,6 +165,10 @@ func planJobs(w *apiWorld, s *sched, tier string) []schedJob {
 	for _, sc := range buildScenarios(w, tier) {
 		three := len(sc.calls) >= 3
 		add := func(stmt bool, bound int) { jobs = append(jobs, schedJob{sc: sc, stmt: stmt, bound: bound}) }
+		if strings.HasPrefix(sc.name, "P64.") {
+			add(false, 1) // 78 KB documents: an execution costs milliseconds; one preemption at the synchronisation points
+			continue
+		}
 		if tier == "quick" {
 			switch {
 			case three:
@@ -460,6 +470,11 @@ func racePass(ctx *core.Ctx, tier string) {
 	info["ran"] = true
 	info["wall_s"] = time.Since(t0).Seconds()
 	info["summary"] = strings.TrimSpace(lastLines(string(out), 3))
+	coldReps := 3
+	if tier == "thorough" {
+		coldReps = 25
+	}
+	raceColdPass(ctx, bin, scratch, coldReps, info)
 	var logs []byte
 	if ms, _ := filepathGlob(logp + "*"); len(ms) > 0 {
 		for _, m := range ms {
@@ -505,6 +520,121 @@ func racePass(ctx *core.Ctx, tier string) {
 	}
 }
 
+// coldScenarios: what the goroutines of one BRAND-NEW process do first, all released together - lazily
+// initialised package-level state (a table filled on first use, a once-guarded cache) is only ever built
+// once per process, so its window exists only here and every later execution of the same process sees it built.
+var coldScenarios = [][]string{
+	{"Pesc.Apply(docEsc) [\\u escapes in names, values and pointers]"},
+	{"P.Apply(docObj)"},
+	{"P.ApplyIndent(docObj)", "MergePatch(docObj,mp1)"},
+	{"CreateMergePatch(docObj,tgtObj)", "Equal(eqA,eqB)"},
+	{"Pesc.Apply(docEsc) [\\u escapes in names, values and pointers]", "DecodePatch(patchOK)+Apply(docObj)", "MergeMergePatches(mp1,mp2)"},
+	{"legacy Lp.Apply(docObj)", "legacy MergePatch(docObj,mp1)"},
+}
+
+// raceColdPass runs every cold scenario in fresh processes of the -race build (8 goroutines each) and
+// reports race-detector output and outcomes that differ from the solo outcomes.
+func raceColdPass(ctx *core.Ctx, bin, scratch string, reps int, info map[string]interface{}) {
+	w := newAPIWorld()
+	solo := w.soloOutcomes()
+	runs, mism := 0, 0
+	var logs []byte
+	for si, sc := range coldScenarios {
+		for _, n := range sc {
+			callIndex(w, n) // panics on a stale name
+		}
+		for r := 0; r < reps; r++ {
+			logp := fmt.Sprintf("%s/racecold-%d-%d.log", scratch, si, r)
+			cmd := exec.Command(bin, "racecold", fmt.Sprint(si))
+			cmd.Env = append(os.Environ(), "GORACE=log_path="+logp+" halt_on_error=0 history_size=3", "GOMAXPROCS=16", "VERIF_SHARD=solo")
+			var outb bytes.Buffer
+			cmd.Stdout = &outb
+			done := make(chan error, 1)
+			if err := cmd.Start(); err != nil {
+				continue
+			}
+			go func() { done <- cmd.Wait() }()
+			select {
+			case <-done:
+			case <-time.After(60 * time.Second):
+				cmd.Process.Kill()
+				<-done
+				ctx.Cap("a cold-start race process did not finish within 60 s (killed)")
+				continue
+			}
+			runs++
+			var res []struct {
+				Call int
+				Out  string
+			}
+			if json.Unmarshal(outb.Bytes(), &res) == nil {
+				for _, x := range res {
+					if x.Out != solo[x.Call] && mism < 10 {
+						mism++
+						ctx.Violate(core.Violation{Property: "C10", Clause: "concurrent-result-differs", Key: "C10:cold-start-result-differs:" + w.calls[x.Call].Name, Engine: "schedx/race",
+							Detail: fmt.Sprintf("first calls of a brand-new process, 8 goroutines released together (scenario %v): %s returns %q, alone %q", sc, w.calls[x.Call].Name, clip(x.Out, 200), clip(solo[x.Call], 200)),
+							Case:   core.J(SchedCase{Scenario: "race:cold"})})
+					}
+				}
+			}
+			if ms, _ := filepathGlob(logp + "*"); len(ms) > 0 {
+				for _, m := range ms {
+					b, _ := os.ReadFile(m)
+					logs = append(logs, b...)
+				}
+			}
+		}
+	}
+	info["cold_start_processes"] = runs
+	info["cold_start_result_mismatches"] = mism
+	blocks := raceBlock.FindAllString(string(logs), -1)
+	info["cold_start_race_reports"] = len(blocks)
+	seen := map[string]bool{}
+	for _, b := range blocks {
+		key := "unknown"
+		for _, m := range raceFrame.FindAllStringSubmatch(b, -1) {
+			if strings.Contains(m[1], "json-patch") && !strings.Contains(m[1], "zzvsync") {
+				key = m[1]
+				break
+			}
+		}
+		if seen[key] {
+			continue
+		}
+		seen[key] = true
+		ctx.Violate(core.Violation{Property: "C10", Clause: "data-race", Key: "C10:data-race:" + key, Engine: "schedx/race",
+			Detail: "in the first calls of a brand-new process: " + clip(b, 1500), Case: core.J(SchedCase{Scenario: "race:cold:" + key})})
+	}
+}
+
+func raceCold(si int) {
+	zs.SetController(nil)
+	zs.FreeYield = true
+	w := newAPIWorld()
+	sc := coldScenarios[si]
+	type res struct {
+		Call int
+		Out  string
+	}
+	out := make([]res, 8)
+	var wg sync.WaitGroup
+	start := make(chan struct{})
+	for g := 0; g < 8; g++ {
+		ci := callIndex(w, sc[g%len(sc)])
+		out[g].Call = ci
+		wg.Add(1)
+		go func(g, ci int) {
+			defer wg.Done()
+			<-start
+			out[g].Out = w.outcome(ci)
+		}(g, ci)
+	}
+	close(start)
+	wg.Wait()
+	b, _ := json.Marshal(out)
+	os.Stdout.Write(b)
+}
+
 func lastLines(s string, n int) string {
 	l := strings.Split(strings.TrimRight(s, "\n"), "\n")
 	if len(l) > n {
@@ -532,13 +662,14 @@ func raceBodies(reps int) {
 		scenario{"ApplyIndent with > 1 KiB results x 3 | small ApplyIndent x 2", []int{callIndex(w, "PbigS.ApplyIndent(wideDoc) [result > 1 KiB]"), callIndex(w, "Ps.ApplyIndent(docS)"),
 			callIndex(w, "PbigS.ApplyIndentWithOptions(wideDoc, tab) [result > 1 KiB]"), callIndex(w, "Ps.ApplyIndent(docS)"), callIndex(w, "PbigS.ApplyIndent(wideDoc) [result > 1 KiB]")}, false},
 		scenario{"CreateMergePatch big ok | big malformed | big ok", []int{callIndex(w, "CreateMergePatch(bigA,bigB) [5 KB documents]"), callIndex(w, "CreateMergePatch(bigBad,bigB) [5 KB, first malformed]"), callIndex(w, "CreateMergePatch(bigA,bigB) [5 KB documents]")}, false},
+		scenario{"three indents of one 78 KB document, one patch, one options value", []int{callIndex(w, "P64.ApplyIndentWithOptions(doc64K, compact, SHARED opts)"), callIndex(w, "P64.ApplyIndentWithOptions(doc64K, two blanks, SHARED opts)"), callIndex(w, "P64.ApplyIndentWithOptions(doc64K, tab, SHARED opts)")}, false},
 		scenario{"legacy Apply | legacy Apply | legacy MergePatch", []int{callIndex(w, "legacy Lp.Apply(docObj)"), callIndex(w, "legacy Lp.Apply(docObj)"), callIndex(w, "legacy MergePatch(docObj,mp1)")}, false})
 	mism := 0
 	runs := 0
 	for r := 0; r < reps; r++ {
 		for _, sc := range scs {
 			if r%4 == 0 || !sc.warm {
-				zs.Reset()
+				coldReset()
 			}
 			if sc.warm {
 				for _, ci := range sc.calls {
@@ -586,6 +717,13 @@ func filepathGlob(p string) ([]string, error) {
 }
 
 func init() {
+	extraCommands["racecold"] = func(args []string) {
+		si := 0
+		if len(args) > 0 {
+			fmt.Sscanf(args[0], "%d", &si)
+		}
+		raceCold(si)
+	}
 	extraCommands["racebodies"] = func(args []string) {
 		reps := 40
 		if len(args) > 0 {
